@@ -6,7 +6,7 @@ V = os.path.dirname(os.path.abspath(__file__))
 ONLY = {  # narrower check invocations, to keep the evaluation fast
     "c18-ber-eight-byte-length": ["--only", "ber"],
     "c18-certreq-ca-list-stray-byte": ["--only", "certificateRequest"],
-    "c15-certmsg-short-list": ["--only", "c15_certificate|c18_tls_certificate"],
+    "c15-certmsg-short-list": ["--only", "c15_msg_certificate$|c18_tls_certificate$"],
     "c15-eccgm-ckx-short": ["--only", "ka"],
     "c12-ghash-pad-alias": ["--only", "nowrite|ghash|open|roundtrip|y0"],
     "c12-ctr24-carry": ["--only", "incr|seal"],
